@@ -2,7 +2,7 @@
 Protocol command for edit/query histories of a collection (property C10):
 
   hist <G> <op>;<op>;…       ops (fields separated by ':')
-     app:P  ins:i:P  rem:P  del:i  rep:P:Q  con:P:Q  exp:n  sort  copy
+     app:P  ins:i:P  rem:P  del:i  rep:P:Q  con:P:Q  exp:n  sort  copy  ccopy  swap (back to the original of the last copy)
      q.str q.len q.getlen q.alg q.dim q.deps q.indeps q.verts q.morphs
      q.isin:X,Y  q.seldep:X,Y  q.space  q.pair  q.sub  q.find:P  q.index:P
      q.graph q.compsA q.commutants q.cgraph q.pairs        (graph queries, property C14)
@@ -103,11 +103,22 @@ def handle (line : String) : Option String :=
     | .error e => return s!"!{e}"
     | .ok g =>
       let mut s : Coll Cls := fresh g
+      -- the collections a copy was taken from (most recent first); `swap` goes back to the most recent one
+      let mut others : List (Coll Cls) := []
       let mut out : List String := []
       for o in (if ops == "-" then [] else ops.splitOn ";") do
-        let (s', r) ← runOne s o
-        s := s'
-        out := out ++ [r]
+        if o == "swap" then
+          match others with
+          | [] => out := out ++ ["ok=" ++ showGens s.gens]
+          | x :: rest =>
+            others := s :: rest
+            s := x
+            out := out ++ ["ok=" ++ showGens s.gens]
+        else
+          if o == "copy" || o == "ccopy" then others := s :: others
+          let (s', r) ← runOne s o
+          s := s'
+          out := out ++ [r]
       return String.intercalate "\t" out
   | _ => none
 
